@@ -469,6 +469,21 @@ pub fn profile_csr(got: &AbsCsr) -> Vec<Finding> {
             if n > 1 {
                 out.push(f("PRF-CSR-ONE-EXTENSION-REQUEST", "cri.attributes", format!("{} extension requests", n)));
             }
+            // the alternative names rcgen itself requests: critical exactly when the requested subject is empty (the same
+            // rule its certificates follow; a caller-supplied second request or custom extension with that OID is the caller's)
+            if n == 1 {
+                let subject_empty = got.subject.iter().all(|r| r.is_empty());
+                for e in a.iter().filter(|x| x.oid == OID_EXT_REQ).filter_map(|x| x.ext_req.as_ref()).flatten() {
+                    if e.oid == OID_SAN {
+                        if let ExtVal::San(names) = &e.parsed {
+                            if !names.is_empty() && e.critical != subject_empty {
+                                out.push(f("PRF-SAN-CRITICAL-IFF-EMPTY-SUBJECT", "cri.extensionRequest", format!("subject empty={} but the requested subjectAltName critical={}", subject_empty, e.critical)));
+                            }
+                        }
+                        break;
+                    }
+                }
+            }
         }
     }
     out
